@@ -124,7 +124,7 @@ PROPERTIES = {
         note="FFT by contract; Hermiticity needs real Vloc/vxc/phi_r and symmetric h (pre-conditions, the latter is the read_gth post-condition); "
              "canary: asymmetric h must not be provably Hermitian",
         explanation="<a|Hb> - <Ha|b> normalises to 0 in the operator algebra",
-        modules=["contracts.c04_c05_c01_c11"],
+        modules=["contracts.c04_c05_c01_c11", "contracts.c05_dos"],
         level="proof",
         trusted_base=BASE_TRUST + ["in-house non-commutative normaliser (engine N)"],
         assumptions=["assumed contracts of sqrtm / inv / fft (listed per obligation)", "floats as exact complex numbers",
